@@ -192,7 +192,7 @@ pub fn check_position(p: &Pos, st: &mut Stats) -> Result<(), Fail> {
 }
 
 pub fn run(run: &mut Run) -> &'static str {
-    let cases = run.tier.pick(60_000, 3_000_000);
+    let cases = run.tier.pick(600_000, 12_000_000);
     run.proptest_part("captures", RULE, pos_case(4..160), cases, |c: &PosCase, st: &mut Stats| {
         let mix = match c {
             PosCase::Tape(t) if t.last().map_or(false, |x| x % 4 == 0) => Mix::General,
